@@ -18,8 +18,14 @@ inductive ReachFrom (s0 : St) : St → Prop
   | step {s s' : St} {store : Bytes → List Msg} {line : Bytes} {r : Reply} {rm : List Bytes} :
       ReachFrom s0 s → s.phase ≠ .quit → step store s line = .ok s' r rm → ReachFrom s0 s'
 
-/-- the states a session can be in: reachable from `NewSession` -/
-abbrev Reach (s : St) : Prop := ReachFrom St.init s
+/-- a state `NewSession` creates: any configuration (TLS off, STLS available, ForceTLS; `tlsState` per server or per
+    session), any value of the server's `tlsState` -/
+def Fresh (s0 : St) : Prop := ∃ c srv, s0 = St.start c srv
+
+theorem fresh_init : Fresh St.init := ⟨{}, false, by decide⟩
+
+/-- the states a session can be in: reachable from `NewSession` on any server -/
+abbrev Reach (s : St) : Prop := ∃ s0, Fresh s0 ∧ ReachFrom s0 s
 
 private theorem reachFrom_inv {s0 s : St} (h0 : Inv s0) (h : ReachFrom s0 s) : Inv s := by
   induction h with
@@ -30,7 +36,13 @@ private theorem reachFrom_inv {s0 s : St} (h0 : Inv s0) (h : ReachFrom s0 s) : I
     cases hs'
     exact post_inv post
 
-private theorem reach_inv {s : St} (h : Reach s) : Inv s := reachFrom_inv inv_init h
+theorem inv_fresh {s0 : St} (h : Fresh s0) : Inv s0 := by
+  obtain ⟨c, srv, rfl⟩ := h
+  simp [Ibx.Lemmas.Pop3.Inv, St.start, St.init]
+
+private theorem reach_inv {s : St} (h : Reach s) : Inv s := by
+  obtain ⟨s0, h0, h⟩ := h
+  exact reachFrom_inv (inv_fresh h0) h
 
 private theorem reachFrom_head {s s' sq : St} {store : Bytes → List Msg} {line : Bytes} {r : Reply} {rm : List Bytes}
     (hq : s.phase ≠ .quit) (hs : step store s line = .ok s' r rm) (h : ReachFrom s' sq) : ReachFrom s sq := by
@@ -63,9 +75,12 @@ private theorem exStep2 : step exStore exS1 cPASS = .ok exS2 (.okLogin 2) [] := 
 private theorem exStep3 : step exStore exS2 cDELE2 = .ok exSt (.okDele 2) [] := by decide
 private theorem exStepQuit : step exStore exSt cQUIT = .ok { exSt with phase := .quit } .ok [[50]] := by decide
 
-private theorem exS1_reach : Reach exS1 := .step .refl (by decide) exStep1
-private theorem exS2_reach : Reach exS2 := .step exS1_reach (by decide) exStep2
-private theorem exSt_reach : Reach exSt := .step exS2_reach (by decide) exStep3
+private theorem exS1_rf : ReachFrom St.init exS1 := .step .refl (by decide) exStep1
+private theorem exS2_rf : ReachFrom St.init exS2 := .step exS1_rf (by decide) exStep2
+private theorem exSt_rf : ReachFrom St.init exSt := .step exS2_rf (by decide) exStep3
+private theorem exS1_reach : Reach exS1 := ⟨_, fresh_init, exS1_rf⟩
+private theorem exS2_reach : Reach exS2 := ⟨_, fresh_init, exS2_rf⟩
+private theorem exSt_reach : Reach exSt := ⟨_, fresh_init, exSt_rf⟩
 
 /-! ### count_inv, retain length -/
 
@@ -105,7 +120,7 @@ example : step exStore exSt ([68, 69, 76, 69, 32] ++ List.replicate 11 57 ++ [13
   (no_panic exSt_reach (by decide) _ _).1
 
 private theorem run_ending (term : Term) (s : St) (h : Inv s) (evs : List Ev) :
-    (run term s evs).ending ≠ .panic ∧ (run term s evs).ending ≠ .badState := by
+    (run term s evs).ending ≠ .panic ∧ (run term s evs).ending ≠ .badState ∧ (run term s evs).ending ≠ .tlsFail := by
   induction evs generalizing s with
   | nil =>
     unfold run
@@ -126,7 +141,14 @@ private theorem run_ending (term : Term) (s : St) (h : Inv s) (evs : List Ev) :
 /-- no whole session — any number of lines, any store history, any ending — ends in a panic -/
 theorem session_never_panics (term : Term) (evs : List Ev) :
     (session term evs).ending ≠ .panic ∧ (session term evs).ending ≠ .badState :=
-  run_ending term St.init inv_init evs
+  ⟨(run_ending term St.init inv_init evs).1, (run_ending term St.init inv_init evs).2.1⟩
+
+/-- the command loop from ANY state satisfying the invariant (any configuration, TLS active or not) ends by QUIT, EOF, a
+    read error or a send error — never by a panic, the "unexpected state" exit or a failed handshake (the last one is
+    an outcome of `sessionWire` only) -/
+theorem loop_endings (term : Term) (s : St) (h : Inv s) (evs : List Ev) :
+    (run term s evs).ending ≠ .panic ∧ (run term s evs).ending ≠ .badState ∧ (run term s evs).ending ≠ .tlsFail :=
+  run_ending term s h evs
 
 example : (session .readError [ev cUSER, ev [255, 0, 10], ev cPASS, ev cDELE1, ev cDELE1]).ending = .readError := by decide
 
@@ -468,8 +490,20 @@ private theorem run_removed (term : Term) (s : St) (hi : Inv s) (evs : List Ev) 
 theorem quit_commits_exactly_session (term : Term) (evs : List Ev) :
     (session term evs).removed = [] ∨
     ∃ sq, Reach sq ∧ sq.phase = .trans ∧ (session term evs).final = { sq with phase := .quit } ∧
-      (session term evs).removed = markedIds sq :=
-  run_removed term St.init inv_init evs
+      (session term evs).removed = markedIds sq := by
+  rcases run_removed term St.init inv_init evs with h | ⟨sq, hr, h⟩
+  · exact .inl h
+  · exact .inr ⟨sq, ⟨_, fresh_init, hr⟩, h⟩
+
+/-- The same for the command loop of a session on ANY server (any TLS configuration, whatever `tlsState` earlier
+    sessions left): nothing is removed, or exactly the ids marked in the reachable TRANSACTION state QUIT was issued in. -/
+theorem loop_commits_exactly (term : Term) (s0 : St) (h0 : Fresh s0) (evs : List Ev) :
+    (run term s0 evs).removed = [] ∨
+    ∃ sq, Reach sq ∧ sq.phase = .trans ∧ (run term s0 evs).final = { sq with phase := .quit } ∧
+      (run term s0 evs).removed = markedIds sq := by
+  rcases run_removed term s0 (inv_fresh h0) evs with h | ⟨sq, hr, h⟩
+  · exact .inl h
+  · exact .inr ⟨sq, ⟨_, h0, hr⟩, h⟩
 
 /-- A session that does not end in state QUIT — the input ended by EOF, by a last line without line end, by a read
     error or the idle timeout, or a reply to a command other than QUIT could not be written — issues no
